@@ -21,18 +21,18 @@ func init() {
 	Register(&Check{
 		ID:          "C17",
 		Technique:   "complete enumeration of (frame stream, split point between hijacked buffer and socket, ReadBufferSize, hijacked reader size, socket chunking) on the real Upgrader, and of every two-chunk split of '101 response + frames' on the real Dialer; oracle = the stream's messages per the independent decoder",
-		Rule:        "server cells = {7 stream shapes} x {ReadBufferSize 0,1,100,256,1024} x {hijacked bufio.Reader size 16,128,256,257,4096} x {every k in 0..min(len,size)} x {socket chunking all / 1-byte}; client cells = {shapes} x {ReadBufferSize 0,125,1024} x {every split of response+frames, 1-byte chunking}; complete product. The hijacked bufio.Reader is layered over the same connection object Hijack returns, as net/http does. non-trivial = k > 0; distinct by observation hash",
+		Rule:        "server cells = {11 stream shapes, two of them with 64 KiB frames (split points around the header only) and two with maximal control frames} x {ReadBufferSize 0,1,64,100,256,1024} x {hijacked bufio.Reader size 16,128,256,257,4096} x {every k in 0..min(len,size)} x {socket chunking all / 1-byte}; client cells = {shapes} x {ReadBufferSize 0,125,1024} x {every split of response+frames, 1-byte chunking}; complete product. The hijacked bufio.Reader is layered over the same connection object Hijack returns, as net/http does. non-trivial = k > 0; distinct by observation hash",
 		Assumptions: []string{"how the bytes get to the Conn (reuse / wrapper / copy) is not constrained"},
 		Budget:      map[string]time.Duration{"quick": 100 * time.Second, "thorough": 15 * time.Minute},
-		Bound:       map[string]string{"quick": "complete product over 7 shapes", "thorough": "complete product over 10 shapes, socket chunkings {all,1,2,7}"},
+		Bound:       map[string]string{"quick": "complete product over 11 shapes", "thorough": "complete product over 10 shapes, socket chunkings {all,1,2,7}"},
 		Scenarios:   c17Scenarios,
 	})
 }
 
 func c17Scenarios(tier string) []*explore.Scenario {
 	var scs []*explore.Scenario
-	for _, sh := range c05Shapes(tier) {
-		for _, rbs := range []int{0, 1, 100, 256, 1024} {
+	for _, sh := range c17Shapes(tier) {
+		for _, rbs := range []int{0, 1, 64, 100, 256, 1024} {
 			for _, hs := range []int{16, 128, 256, 257, 4096} {
 				sh, rbs, hs := sh, rbs, hs
 				scs = append(scs, &explore.Scenario{Name: fmt.Sprintf("c17/server/%s/rbs=%d/hijacked=%d", sh.name, rbs, hs), Bound: 0, Body: func(x *explore.Ctx) { c17Server(x, sh, rbs, hs, tier) }})
@@ -44,6 +44,25 @@ func c17Scenarios(tier string) []*explore.Scenario {
 		}
 	}
 	return scs
+}
+
+// c17Shapes: the stream shapes of C05 plus streams with maximal control frames (a connection reader
+// smaller than a control frame must not be possible whatever path the early bytes take).
+func c17Shapes(tier string) []c05Shape {
+	k := maskKeys[3]
+	fr := func(masked bool, op byte, fin bool, p []byte) wsref.Frame {
+		return wsref.Frame{Fin: fin, Opcode: op, Masked: masked, Key: k, Payload: p}
+	}
+	shapes := c05Shapes(tier)
+	shapes = append(shapes,
+		c05Shape{name: "text+ping125+text", build: func(m bool) []wsref.Frame {
+			return []wsref.Frame{fr(m, 1, true, []byte("first")), fr(m, 9, true, Pattern(4, 125)), fr(m, 1, true, []byte("second"))}
+		}},
+		c05Shape{name: "pong101+frag+ping17", build: func(m bool) []wsref.Frame {
+			return []wsref.Frame{fr(m, 10, true, Pattern(4, 101)), fr(m, 2, false, Pattern(0, 20)), fr(m, 9, true, Pattern(4, 17)), fr(m, 0, true, Pattern(0, 3))}
+		}},
+	)
+	return shapes
 }
 
 func c17Expect(stream []byte, sender wsref.Role, deflate bool) []wsref.Message {
@@ -61,10 +80,23 @@ func c17Server(x *explore.Ctx, sh c05Shape, rbs, hs int, tier string) {
 	if maxk > hs {
 		maxk = hs
 	}
-	k := x.Pick(maxk+1, "k")
+	var k int
 	chunkings := []int{0, 1}
 	if tier == "thorough" {
 		chunkings = []int{0, 1, 2, 7}
+	}
+	if sh.sparse {
+		// 64 KiB frames: split points around the header only, no 1-byte socket delivery
+		var ks []int
+		for _, v := range []int{0, 1, 2, 3, 4, 9, 10, 11, 13, 14, 15, hs - 1, hs} {
+			if v <= maxk && (len(ks) == 0 || v > ks[len(ks)-1]) {
+				ks = append(ks, v)
+			}
+		}
+		k = ks[x.Pick(len(ks), "k")]
+		chunkings = []int{0, 4096}
+	} else {
+		k = x.Pick(maxk+1, "k")
 	}
 	sockChunk := chunkings[x.Pick(len(chunkings), "socket-chunking")]
 	nc := netsim.NewConn(stream)
@@ -159,7 +191,20 @@ func c17Client(x *explore.Ctx, sh c05Shape, rbs int) {
 				b.Write(other)
 			}
 			reply = b.Bytes()
-			if mode == 0 && di == 0 {
+			if mode == 0 && di == 0 && sh.sparse {
+				// 64 KiB frames: split points inside the response head, around its end and around
+				// the first frame header only
+				hl := len(reply) - len(stream)
+				var ss []int
+				for v := 0; v <= hl+20 && v <= len(reply); v++ {
+					ss = append(ss, v)
+				}
+				ss = append(ss, hl+4096, hl+4097, len(reply)-1, len(reply))
+				split = ss[x.Pick(len(ss), "split")]
+				c.Chunk = netsim.ChunkSplitAt(split)
+			} else if mode == 1 && sh.sparse {
+				c.Chunk = netsim.ChunkFixed(4093)
+			} else if mode == 0 && di == 0 {
 				split = x.Pick(len(reply)+1, "split")
 				c.Chunk = netsim.ChunkSplitAt(split)
 			} else if mode == 1 {
